@@ -950,7 +950,8 @@ class CylindricalDetector(Detector):
         if np.linalg.norm(np.cross(*axes)) == 0:
             raise ValueError('`axes` {} are linearly dependent'
                              ''.format(axes_in))
-        if np.linalg.norm(np.dot(*axes)) != 0:
+        if (abs(np.dot(*axes)) >
+                1e-10 * np.prod(np.linalg.norm(axes, axis=1))):
             raise ValueError('`axes` {} are not perpendicular'
                              ''.format(axes_in))
 
@@ -1208,7 +1209,8 @@ class SphericalDetector(Detector):
         if np.linalg.norm(np.cross(*axes)) == 0:
             raise ValueError('`axes` {} are linearly dependent'
                              ''.format(axes_in))
-        if np.linalg.norm(np.dot(*axes)) != 0:
+        if (abs(np.dot(*axes)) >
+                1e-10 * np.prod(np.linalg.norm(axes, axis=1))):
             raise ValueError('`axes` {} are not perpendicular'
                              ''.format(axes_in))
 
